@@ -1,33 +1,60 @@
-"""developer helper: python3-vt -m pyvc.dev <fid> ...   (prints every obligation)"""
-import sys, time
+"""developer helper: python3-vt -m pyvc.dev [-q] <fid> ...   (prints every obligation; solves in parallel)"""
+import multiprocessing
+import os
+import sys
+import time
 sys.setrecursionlimit(20000)
 from pyvc import source, contracts as C
 from pyvc.verify import PyVC, check_obligation, check_cover
 import contracts as sidecar
 
+_VC = None
+_OBLS = None
+
+
+def _solve(i):
+    ob = _OBLS[i]
+    check_obligation(_VC, ob, use_cvc5=not os.environ.get("PYVC_NO_CVC5"))
+    return (i, ob.status, ob.backend, ob.time, ob.model)
+
 
 def main(argv):
+    global _VC, _OBLS
+    quiet = False
+    if argv and argv[0] == "-q":
+        quiet = True
+        argv = argv[1:]
     sidecar.load_all()
     src = source.sources()
-    fids = argv or [f for f, c in C.REG.items() if not f.startswith(("abs:", "lib:", "new:", "user:")) and (c.ensures or c.raises)]
+    fids = argv or [f for f, c in C.REG.items() if not f.startswith(("abs:", "lib:", "new:", "user:", "ctx:")) and (c.ensures or c.raises) and not c.trusted]
     for fid in fids:
         vc = PyVC(src)
         c = C.REG[fid]
         t0 = time.time()
-        if c.spec_only:
-            info = vc.verify_lemma(fid)
+        info = vc.verify_lemma(fid) if c.spec_only else vc.verify_function(fid)
+        obls = info.get("obligations", [])
+        print("== %s: %s %s (%d obligations, symexec %.2fs)" % (fid, info["status"], info["error"] or "", len(obls), time.time() - t0))
+        _VC, _OBLS = vc, obls
+        t1 = time.time()
+        if len(obls) > 4:
+            with multiprocessing.get_context("fork").Pool(min(16, len(obls))) as pool:
+                res = pool.map(_solve, range(len(obls)), chunksize=1)
         else:
-            info = vc.verify_function(fid)
-        print("== %s: %s %s (%d obligations, symexec %.2fs)" % (fid, info["status"], info["error"] or "", len(info.get("obligations", [])), time.time() - t0))
-        for ob in info.get("obligations", []):
-            check_obligation(vc, ob)
-            print("   %-10s %-7s %6.2fs %s" % (ob.status, ob.backend, ob.time, ob.oid))
-            if ob.status != "discharged":
-                print("      note:", ob.note[:200])
-                if ob.model:
-                    print("      model:", ob.model.replace("\n", "; ")[:600])
-        for name, pcs in info.get("covers", []):
-            print("   cover %-30s %s" % (name, check_cover(vc, pcs)))
+            res = [_solve(i) for i in range(len(obls))]
+        for i, status, backend, tm, model in res:
+            ob = obls[i]
+            if quiet and status == "discharged":
+                continue
+            print("   %-10s %-7s %6.2fs %s" % (status, backend, tm, ob.oid))
+            if status != "discharged":
+                print("      note:", ob.note[:300])
+                if model:
+                    print("      model:", model.replace("\n", "; ")[:600])
+        n_ok = sum(1 for r in res if r[1] == "discharged")
+        print("   -- %d/%d discharged, solving wall %.1fs" % (n_ok, len(obls), time.time() - t1))
+        if not quiet:
+            for name, pcs in info.get("covers", []):
+                print("   cover %-30s %s" % (name, check_cover(vc, pcs)))
 
 
 if __name__ == "__main__":
